@@ -553,7 +553,7 @@ func checkC45(r *mon.Run) {
 		return
 	}
 
-	n := devLimit(r.Pick(1500, 30000))
+	n := devLimit(r.Pick(800, 20000))
 	parallel(n, workers(), func(i int) { oneHPHistory(r, i, dir) })
 
 	r.Require(int64(n)*15, 60,
